@@ -22,7 +22,8 @@ func init() {
 			{Name: "laws/generated-triples", Count: core.FixedCount(60000, 1200000), Run: func(c *core.Ctx, idx int) { rel.RunRandomTriples(c) }},
 		},
 		Repro: map[string]func() (bool, string){"c07.nan-rank": rel.ReproNaNRank, "c07.complex-rank": rel.ReproComplexRank,
-			"c07.map-behind-interface": func() (bool, string) { return rel.ReproMapBehindInterface("rank") }},
+			"c07.map-behind-interface": func() (bool, string) { return rel.ReproMapBehindInterface("rank") },
+			"c07.fixed-array":          rel.ReproFixedArray},
 	})
 	core.Register(&core.Property{
 		ID:    "C08",
